@@ -1,4 +1,4 @@
 (* KernelCases.v — everything cases.v (written by ./check from the harness's sample) needs in scope. *)
-From PV Require Export Bytes Result Pae Base64 Text Tokens Validation.
+From PV Require Export Bytes Result Pae Base64 Text Tokens Validation Oracle TableOracle Ctr Local Public.
 Global Open Scope string_scope.
 Global Open Scope list_scope.
